@@ -11,7 +11,7 @@ def corpus_sources():
     out = []
     for f in sorted(glob.glob(os.path.join(VERIF, "corpus", "programs", "*.garble"))):
         src = open(f).read()
-        if "pub fn main" in src and "join" not in src and "const " not in src:
+        if "pub fn main" in src and "join" not in src:
             out.append((os.path.basename(f), src))
     return out
 
